@@ -988,4 +988,143 @@ theorem plan_clipped_bound {e : Env} {a : Auc} {amt0 : Int} {dp : Dec} {p : Plan
                 · cases h
           · cases h
       · cases h
+/-- **lower bound of one conversion**: truncation loses less than one unit, the two half-even roundings at most
+`(d2/2)(1/r2 + 10⁻¹⁸)(1 + 2·10⁻¹⁸)`; cross-multiplied by `10³⁶`. -/
+theorem convVal_lower (amt r1 d1 r2 d2 : Int) (ha : 0 ≤ amt) (hr1 : 0 ≤ r1) (hd1 : 0 < d1) (hr2 : 0 < r2) (hd2 : 0 ≤ d2) :
+    2 * (amt * r1) * d2 * (P * P) ≤
+      2 * (P * P) * r2 * d1 * (convVal amt r1 d1 r2 d2 + 1) + d1 * d2 * (P * r2 + 2 * r2) + (P * P) * d1 * d2 + 2 * P * d1 * d2 := by
+  unfold convVal
+  have hPPv : PP = P * P := by simp [PP]
+  have hP : (0 : Int) < P := by simp [P]
+  set A := amt * r1 with hA
+  have hA0 : 0 ≤ A := by positivity
+  have hx1n : 0 ≤ A * P := by positivity
+  set x1 := (A * P).tdiv d1 with hx1
+  have hx1' : x1 = A * P / d1 := Int.tdiv_eq_ediv_of_nonneg hx1n
+  have hx10 : 0 ≤ x1 := by rw [hx1']; exact Int.ediv_nonneg hx1n (Int.le_of_lt hd1)
+  have hx1gt : A * P < (x1 + 1) * d1 := by rw [hx1']; exact Int.lt_ediv_add_one_mul_self _ hd1
+  obtain ⟨ht1, _⟩ := chopRound_bounds x1 hx10
+  set t1 := chopRound x1 with ht1def
+  have ht10 : 0 ≤ t1 := chopRound_nonneg x1 hx10
+  -- 2AP ≤ 2P·t1·d1 + P·d1 + 2·d1
+  have h_t1 : 2 * A * P ≤ 2 * P * t1 * d1 + P * d1 + 2 * d1 := by
+    have : (2 * x1 - P) * d1 ≤ 2 * P * t1 * d1 := Int.mul_le_mul_of_nonneg_right ht1 (Int.le_of_lt hd1)
+    nlinarith
+  have hx2n : 0 ≤ t1 * PP := by rw [hPPv]; positivity
+  set x2 := (t1 * PP).tdiv r2 with hx2
+  have hx2' : x2 = t1 * PP / r2 := Int.tdiv_eq_ediv_of_nonneg hx2n
+  have hx20 : 0 ≤ x2 := by rw [hx2']; exact Int.ediv_nonneg hx2n (Int.le_of_lt hr2)
+  have hx2gt : t1 * PP < (x2 + 1) * r2 := by rw [hx2']; exact Int.lt_ediv_add_one_mul_self _ hr2
+  obtain ⟨hna, _⟩ := chopRound_bounds x2 hx20
+  set na := chopRound x2 with hnadef
+  have hna0 : 0 ≤ na := chopRound_nonneg x2 hx20
+  -- 2·t1·P·P ≤ 2P·na·r2 + P·r2 + 2·r2
+  have h_na : 2 * t1 * (P * P) ≤ 2 * P * na * r2 + P * r2 + 2 * r2 := by
+    have : (2 * x2 - P) * r2 ≤ 2 * P * na * r2 := Int.mul_le_mul_of_nonneg_right hna (Int.le_of_lt hr2)
+    rw [hPPv] at hx2gt
+    nlinarith
+  have hcn : 0 ≤ na * d2 := by positivity
+  set c := (na * d2).tdiv P with hc
+  have hc' : c = na * d2 / P := Int.tdiv_eq_ediv_of_nonneg hcn
+  have hcgt : na * d2 < (c + 1) * P := by rw [hc']; exact Int.lt_ediv_add_one_mul_self _ hP
+  -- chain
+  have hdd : 0 ≤ d1 * d2 := by positivity
+  have s1 : 2 * A * d2 * (P * P) ≤ (2 * P * t1 * d1 + P * d1 + 2 * d1) * d2 * P := by
+    have : 0 ≤ d2 * P := by positivity
+    nlinarith
+  have s2 : d1 * d2 * (2 * t1 * (P * P)) ≤ d1 * d2 * (2 * P * na * r2 + P * r2 + 2 * r2) :=
+    Int.mul_le_mul_of_nonneg_left h_na hdd
+  have s3 : 2 * P * r2 * d1 * (na * d2) ≤ 2 * P * r2 * d1 * ((c + 1) * P) := by
+    have : 0 ≤ 2 * P * r2 * d1 := by positivity
+    exact Int.mul_le_mul_of_nonneg_left (Int.le_of_lt hcgt) this
+  nlinarith
+
+/-- under `d2·(r2 + 10¹⁸)·(10¹⁸ + 2) ≤ r2·10³⁶` (one unit of the target token is worth at least ~two ulps) the value
+converted is at most two units above what came out: one for the truncation, one for the half-even roundings -/
+theorem convVal_lower' (amt r1 d1 r2 d2 : Int) (ha : 0 ≤ amt) (hr1 : 0 ≤ r1) (hd1 : 0 < d1) (hr2 : 0 < r2) (hd2 : 0 ≤ d2)
+    (hs : d2 * (r2 + P) * (P + 2) ≤ r2 * (P * P)) :
+    amt * r1 * d2 ≤ (convVal amt r1 d1 r2 d2 + 2) * (d1 * r2) := by
+  have h := convVal_lower amt r1 d1 r2 d2 ha hr1 hd1 hr2 hd2
+  set c := convVal amt r1 d1 r2 d2
+  have hPP : (0 : Int) < P * P := by simp [P]
+  have h2 : d1 * (d2 * (r2 + P) * (P + 2)) ≤ d1 * (r2 * (P * P)) := Int.mul_le_mul_of_nonneg_left hs (Int.le_of_lt hd1)
+  have hpos : 0 ≤ (P * P) * (d1 * r2) := Int.mul_nonneg (Int.le_of_lt hPP) (Int.mul_nonneg (Int.le_of_lt hd1) (Int.le_of_lt hr2))
+  have key : (P * P) * (2 * (amt * r1 * d2)) ≤ (P * P) * (2 * ((c + 2) * (d1 * r2))) := by nlinarith
+  have := le_of_mul_le_mul_left key hPP
+  omega
+
+/-- **collateral exhausted, against the amount finally charged**: everything that is left goes to the bidder and is at most
+one collateral unit above what `pay + 2` debt units plus the bonus buy at the posted price. -/
+theorem plan_clipped_posted {e : Env} {a : Auc} {amt0 : Int} {dp : Dec} {p : Plan}
+    (h : plan e a amt0 dp = .ok p)
+    (hb : 0 ≤ a.bonus) (hdp : (0 : Int) < dp) (hdD : 0 < e.decD) (hpr : (0 : Int) ≤ a.price) (hdC : 0 < e.decC)
+    (hs : e.decC * (a.price + P) ≤ a.price * P)
+    (hsb : e.decD * (dp + P) * (P + 2) ≤ dp * (P * P)) (hc : p.clipped = true) :
+    (p.total - 1) * (e.decD * a.price) ≤ (p.pay + 2 + a.bonus) * dp * e.decC := by
+  -- common tail: given the three conversions
+  have tail : ∀ (cB d' : Int), convC a.bonus dp e.decD a.price e.decC = .ok cB →
+      convC (a.coll - cB) a.price e.decC dp e.decD = .ok d' → 0 ≤ d' →
+      (a.coll - 1) * (e.decD * a.price) ≤ (d' + 2 + a.bonus) * dp * e.decC := by
+    intro cB d' hcB hd' hd0
+    obtain ⟨ecB, _, hr2⟩ := convC_ok hcB
+    obtain ⟨ed', _, _⟩ := convC_ok hd'
+    have hr2' : (a.price : Int) ≠ 0 := hr2
+    have hprpos : (0 : Int) < a.price := by omega
+    have fb := two_conv_bound a.bonus 0 dp e.decD a.price e.decC hb (le_refl 0) (Int.le_of_lt hdp) hdD hprpos (by omega) hs
+    rw [convVal_zero, ← ecB] at fb
+    have hpos : 0 ≤ e.decD * a.price := by positivity
+    by_cases hX : 0 ≤ a.coll - cB
+    · have lb := convVal_lower' (a.coll - cB) a.price e.decC dp e.decD hX hpr hdC hdp (by omega) hsb
+      rw [← ed'] at lb
+      nlinarith
+    · have h1 : a.coll - 1 ≤ cB + 0 - 1 := by omega
+      have h2 := Int.mul_le_mul_of_nonneg_right h1 hpos
+      have h3 : 0 ≤ (d' + 2) * dp * e.decC := by positivity
+      nlinarith
+  unfold plan at h
+  split at h
+  · cases h
+  · by_cases hfull : amt0 ≥ a.debt
+    · simp only [hfull, decide_true, if_true, true_or] at h
+      split at h
+      · rename_i c cB hcc hcB
+        split at h
+        · split at h
+          · rename_i d' hd'
+            split at h
+            · cases h
+            · rename_i hg
+              cases h
+              simp only
+              exact tail cB d' hcB hd' (by omega)
+          · cases h
+        · split at h
+          · cases h
+          · cases h; simp at hc
+      · cases h
+    · simp only [hfull, decide_false, if_false, false_or, Bool.false_eq_true] at h
+      split at h
+      · rename_i c cB hcc hcB
+        split at h
+        · split at h
+          · rename_i d' hd'
+            split at h
+            · cases h
+            · rename_i hg
+              cases h
+              simp only
+              exact tail cB d' hcB hd' (by omega)
+          · cases h
+        · split at h
+          · split at h
+            · cases h
+            · split at h
+              · cases h
+              · split at h
+                · split at h
+                  · cases h
+                  · cases h; simp at hc
+                · cases h
+          · cases h
+      · cases h
 end Comdex.DutchV2
